@@ -558,3 +558,72 @@ func opOfLattice(code []byte) string {
 	}
 	return "?"
 }
+
+// ---------------------------------------------------------------- concurrency (class 4)
+
+// concurrent: the same programs sequentially and then from N goroutines, each goroutine with
+// its own account DB and EVMs (as RPC calls and block execution do in the node); every answer
+// must equal the sequential one.  Fork flags are process-global, so one configuration per phase.
+func concurrent(a map[string]string) {
+	g := newGen(hx.NewRng(hx.SeedFromEnv()^0xc0c0), false)
+	n := hx.ArgInt(a, "n", 3000)
+	workers := hx.ArgInt(a, "workers", 8)
+	type job struct {
+		line        string
+		gas         uint64
+		code, input []byte
+		want        string
+	}
+	var lines []string
+	g.all(func(stream, line string) {
+		if strings.HasPrefix(line, "run ") && len(lines) < n && (stream == "straight" || stream == "memory" || stream == "branch" || stream == "lattice" || stream == "arity") {
+			lines = append(lines, line)
+		}
+	})
+	found, evals := 0, 0
+	for _, cfg := range []int{7, 0} {
+		setCfg(cfg)
+		jobs := make([]job, 0, len(lines))
+		for _, l := range lines {
+			w := strings.Fields(l)
+			gas, _ := strconv.ParseUint(w[2], 10, 64)
+			code, _ := hx.UnHex(w[3])
+			input, _ := hx.UnHex(w[4])
+			j := job{line: l, gas: gas, code: code, input: input}
+			j.want = hx.Guard(func() string {
+				k, left, ret := runOn(state, gas, code, input)
+				return fmt.Sprintf("%s %d %s", k, left, hx.Hex(ret))
+			})
+			jobs = append(jobs, j)
+		}
+		res := make([]string, len(jobs))
+		done := make(chan bool, workers)
+		for w := 0; w < workers; w++ {
+			go func(w int) {
+				st := newState()
+				for i := w; i < len(jobs); i += workers {
+					j := jobs[i]
+					res[i] = hx.Guard(func() string {
+						k, left, ret := runOn(st, j.gas, j.code, j.input)
+						return fmt.Sprintf("%s %d %s", k, left, hx.Hex(ret))
+					})
+				}
+				done <- true
+			}(w)
+		}
+		for w := 0; w < workers; w++ {
+			<-done
+		}
+		for i, j := range jobs {
+			evals++
+			if res[i] != j.want {
+				found++
+				if found <= 10 {
+					fmt.Printf("FOUND key=concurrent-divergence impl=%s ref=%s line=run %d %d %s %s\n",
+						strings.ReplaceAll(res[i], " ", "_"), strings.ReplaceAll("sequential:"+j.want, " ", "_"), cfg, j.gas, hx.Hex(j.code), hx.Hex(j.input))
+				}
+			}
+		}
+	}
+	fmt.Printf("STATS {\"evaluations\":%d,\"found\":%d,\"workers\":%d}\n", evals, found, workers)
+}
